@@ -1,9 +1,9 @@
 from check import Job
 import itertools
 EXPLANATION = 'histories of provider announcements, lookups, sweeps and withdrawals on the real KademliaTable (real unordered_map / vector / deque code) with a symbolic steady clock; a per-(chunk, peer) deadline oracle decides every lookup; cap of 20 providers with a symbolic 21st lifetime'
-ASSUMPTIONS = ['steady_clock::now is the harness clock (arbitrary start < 2^60 ns, arbitrary non-negative advance <= 2^50 ns before every step and before the final lookups)',
+ASSUMPTIONS = ['steady_clock::now is the harness clock: event times on a 1/8 s grid, advance 0..127 eighths (< 16 s) before every step and before the final lookups; since deadlines are event times plus whole seconds, every real-valued schedule of <= 8 events is order-isomorphic to one on this grid (magnitudes are bounded, orderings are not)',
                'std::_Hash_bytes / rehash policy / chunk_id_to_string are the harness models of harness/include/stdmodels.h',
-               'announced TTL in [-4, 2^20] s; peers and chunks are fixed distinct ids (the code compares ids only for equality); address is one symbolic byte',
+               'announced TTL in [-4, 251] s; peers and chunks are fixed distinct ids (the code compares ids only for equality); address is one symbolic byte',
                'every operation sequence of the listed length that starts with an announcement, one job per sequence; which peer/chunk each step addresses is symbolic; a final lookup of every chunk closes each history',
                'cap job: 20 concrete distinct lifetimes + one symbolic (fully symbolic lifetimes for 21 providers would need 21! sort orders: outside the bound)']
 OPS = 'AFSW'   # announce, find, sweep, withdraw
